@@ -2,8 +2,9 @@
 (***************************************************************************)
 (* Graph memory (property C18).  A graph value mirrors the implementation  *)
 (* level: nodes as a sequence of [id, st] sorted by id, incoming edges as  *)
-(* a sequence of [d, in] sorted by destination d, `in` the incoming-edge   *)
-(* list [o, w] of d in insertion order.  The abstract (set-based) view is  *)
+(* a sequence of [d, in] sorted by destination d, `in` the incoming edges  *)
+(* [o, w] of d sorted by origin (canonical: the order of the list in the   *)
+(* implementation is not part of the value).  The abstract (set-based) view is  *)
 (* given by NodeSet / EdgeSet; GraphInv states the structural invariants.  *)
 (* The GRAPH stack is a bounded stack (element 1 = top, capacity 100).     *)
 (***************************************************************************)
@@ -28,11 +29,14 @@ DestIdx(g, d)  == CHOOSE i \in 1..Len(g.edges) : g.edges[i].d = d
 Incoming(g, d) == IF d \in DestIds(g) THEN g.edges[DestIdx(g, d)]["in"] ELSE <<>>
 HasEdge(g, o, d) == \E i \in 1..Len(Incoming(g, d)) : Incoming(g, d)[i].o = o
 EdgeIdx(g, o, d) == CHOOSE i \in 1..Len(Incoming(g, d)) : Incoming(g, d)[i].o = o
+RECURSIVE InsertOrigin(_, _)
+InsertOrigin(es, e) == IF es = <<>> THEN <<e>> ELSE IF e.o < Head(es).o THEN <<e>> \o es
+                       ELSE <<Head(es)>> \o InsertOrigin(Tail(es), e)
 \* an edge is added only between existing nodes and only if there is none yet for that pair
 AddEdge(g, o, d, w) ==
   IF ~(HasNode(g, o) /\ HasNode(g, d)) \/ HasEdge(g, o, d) THEN g
   ELSE IF d \in DestIds(g)
-       THEN [g EXCEPT !.edges[DestIdx(g, d)]["in"] = @ \o <<[o |-> o, w |-> w]>>]
+       THEN [g EXCEPT !.edges[DestIdx(g, d)]["in"] = InsertOrigin(@, [o |-> o, w |-> w])]
        ELSE [g EXCEPT !.edges = InsertDest(@, [d |-> d, in |-> <<[o |-> o, w |-> w]>>])]
 WeightOf(g, o, d)  == Incoming(g, d)[EdgeIdx(g, o, d)].w
 SetWeight(g, o, d, w) ==
@@ -57,7 +61,7 @@ GraphInv(g) ==
   /\ \A d \in DestIds(g) : \A i, j \in 1..Len(Incoming(g, d)) :
         Incoming(g, d)[i].o = Incoming(g, d)[j].o => i = j                        \* G2
 
-\* queries: predecessors in incoming-list order; successors / filter in unspecified (hash) order
+\* queries: the node SETS are specified; the order of every answer is unspecified (list / hash order)
 StateOK(states, st) == states = <<>> \/ \E i \in 1..Len(states) : states[i] = st
 Preds(g, id, states) ==
   LET inc == SelectSeq(Incoming(g, id), LAMBDA e : HasNode(g, e.o) /\ StateOK(states, StateOf(g, e.o)))
@@ -151,7 +155,7 @@ ApplyGraph(n, s) ==
                                     ELSE LET s1 == PopN(s, "int", 1) IN
                                          IF s.int[1] < 0 \/ s.int[1] >= Len(G) THEN Unfired(s1)
                                          ELSE NodesQuery(s1, G[s.int[1] + 1])
-    [] n = "GRAPH.NODE*PREDECESSORS" -> AdjQuery(s, Preds, TRUE)
+    [] n = "GRAPH.NODE*PREDECESSORS" -> AdjQuery(s, Preds, FALSE)
     [] n = "GRAPH.NODE*SUCCESSORS"   -> AdjQuery(s, Succs, FALSE)
     [] n = "GRAPH.NODE*NEIGHBORS"    -> AdjQuery(s, LAMBDA g, id, st : Preds(g, id, st) \o Succs(g, id, st), FALSE)
     \* the textual forms expose hash order: the pushed NAME is specified up to the order of the nodes and
